@@ -23,7 +23,10 @@ let float_ops : float numOps = {
   nneg = (fun x -> -. x); nabs = Float.abs; nsqrt = Float.sqrt;
   ncos = Float.cos; nsin = Float.sin; nexp = Float.exp; nln = Float.log;
   nacos = Float.acos; nasin = Float.asin; natan = Float.atan; natan2 = Float.atan2;
-  npow = Float.pow;
+  (* C pow.  For the exponent 2.0 gcc emits x*x (the correctly rounded square) instead of calling libm, whose pow is
+     within 1 ulp but NOT correctly rounded (glibc: pow(x,2.0) <> x*x for about 0.08 % of doubles); the compiled kernels
+     contain `pow(x, 2.0)` for Cython's `x**2`, so the float instance squares by multiplication as the artefact does. *)
+  npow = (fun x y -> if y = 2.0 then x *. x else Float.pow x y);
   nltb = (fun x y -> x < y); nleb = (fun x y -> x <= y); neqb = (fun x y -> x = y);
   nisnan = Float.is_nan;
   nofZ = (fun z -> float_of_int (int_of_z z));
